@@ -834,9 +834,17 @@ func extTimerStop(fr *frame, a []value) value {
 	if p == nil {
 		i.throw("invalid memory address or nil pointer dereference")
 	}
+	if st, isStruct := (*p).(structure); isStruct {
+		// created by time.NewTimer: field 0 is the channel
+		if ch, ok := st[0].(*schan); ok {
+			was := !ch.fired
+			ch.fired = true
+			return i.mkBool(was)
+		}
+	}
 	n, ok := (*p).(*native)
 	if !ok {
-		i.unsupported("Stop on a timer not created by time.AfterFunc")
+		i.unsupported("Stop on a timer not created by time.AfterFunc / time.NewTimer")
 	}
 	ts := n.v.(*timerState)
 	was := ts.active
@@ -1131,4 +1139,29 @@ func init() {
 
 func init() {
 	externals["github.com/containerd/log.WithLogger"] = func(fr *frame, a []value) value { return a[0] }
+}
+
+func init() {
+	// time.After / time.NewTimer: a channel that receives "at some later time". The engine delivers the tick only
+	// when every thread is blocked (then the timer is the only thing that can make progress): timeouts are real but
+	// never preempt runnable code.
+	externals["time.NewTimer"] = func(fr *frame, a []value) value {
+		i := fr.i
+		ch := &schan{cap: 1}
+		i.afterChans = append(i.afterChans, ch)
+		t := i.pkgType("time", "Timer").Underlying().(*types.Struct)
+		st := make(structure, t.NumFields())
+		for k := range st {
+			st[k] = i.zero(t.Field(k).Type())
+		}
+		st[0] = ch
+		var cell value = st
+		return &cell
+	}
+	externals["time.After"] = func(fr *frame, a []value) value {
+		i := fr.i
+		ch := &schan{cap: 1}
+		i.afterChans = append(i.afterChans, ch)
+		return ch
+	}
 }
